@@ -187,6 +187,27 @@ macro_rules! cov {
     }};
 }
 
+/// Required reachability: "there are inputs for which `cond` holds".  The solver must find the
+/// cover SATISFIED; an unsatisfiable one is a *violation candidate* (the negation holds for all
+/// inputs), confirmed natively by running the body with the real environment and never seeing it.
+#[macro_export]
+macro_rules! must {
+    ($src:expr, $cond:expr, $label:literal) => {{
+        let __c: bool = $cond;
+        #[cfg(kani)]
+        {
+            let _ = &$src;
+            kani::cover(__c, concat!("MUST: ", $label));
+        }
+        #[cfg(not(kani))]
+        {
+            if __c {
+                $src.covered.push(concat!("MUST: ", $label));
+            }
+        }
+    }};
+}
+
 /// Registry used by the native replay binary.
 pub fn harness_by_name(name: &str) -> Option<fn(&mut Src)> {
     let all: &[(&str, fn(&mut Src))] = &[
